@@ -10,7 +10,7 @@ from .. import gens
 from ..trace import Trace
 
 RULE = ("Cases: nensembles 1..8 x nprocesses 1..8 x noise_mode {single, flip} x ensemble_noise {0, 0.05, 0.2, 1} x signals of "
-        "256..512 samples x caps 1..3, the global numpy RNG seeded with a drawn value before every call; the same grid for "
+        "256..512 samples (stored as float64 / float32 / int64 / int16) x caps 1..3, the global numpy RNG seeded with a drawn value before every call; the same grid for "
         "complete_ensemble_sift. Oracle, from the guarded in-tree trace of the per-member worker (member index, pid, the "
         "noise array actually added): (a) one record per member and stage, the members' noise arrays pairwise different "
         "(digest) and pairwise |corr| < 0.5; (b) the output equals the per-IMF mean over members of sift(x +- noise_i, cap) "
@@ -27,7 +27,8 @@ ASSUMPTIONS = ["classic sift is the trusted building block for the recomputation
 def ens_case(draw):
     n = draw(st.sampled_from([256, 300, 400, 512]))
     sig = {'family': draw(st.sampled_from(['tones', 'amfm', 'walk', 'noise'])), 'n': n,
-           'k': draw(st.integers(0, 2**32 - 1)), 'p1': draw(st.floats(0, 1)), 'p2': draw(st.floats(0, 1))}
+           'k': draw(st.integers(0, 2**32 - 1)), 'p1': draw(st.floats(0, 1)), 'p2': draw(st.floats(0, 1)),
+           'dtype': draw(st.sampled_from(['f8', 'f8', 'f8', 'f4', 'i8', 'i2']))}
     return {'sig': sig, 'nens': draw(st.integers(1, 8)), 'nproc': draw(st.integers(1, 8)),
             'mode': draw(st.sampled_from(['single', 'flip'])), 'noise': draw(st.sampled_from([0.0, 0.05, 0.2, 1.0])),
             'cap': draw(st.integers(1, 3)), 'seed': draw(st.integers(0, 2**31 - 1))}
@@ -64,12 +65,14 @@ def member_decomposition(emd, X, noise, mode, cap):
 
 def oracle_ensemble(case, rec):
     import emd
-    x = gens.sig_of(case['sig'])
+    xt = gens.sig_of(case['sig'])        # as stored (float64 / float32 / int64 / int16)
+    x = xt.astype(float)
     N = x.size
+    rec.cls('dtype=' + case['sig'].get('dtype', 'f8'))
     np.random.seed(case['seed'])
     try:
         with Trace() as tr:
-            out = np.asarray(emd.sift.ensemble_sift(x.copy(), nensembles=case['nens'], ensemble_noise=case['noise'],
+            out = np.asarray(emd.sift.ensemble_sift(xt.copy(), nensembles=case['nens'], ensemble_noise=case['noise'],
                                                     noise_mode=case['mode'], nprocesses=case['nproc'], max_imfs=case['cap']))
     except emd.support.EMDSiftCovergeError:
         raise Discard('convergence error')
@@ -121,12 +124,13 @@ def collections_count(xs):
 
 def oracle_complete(case, rec):
     import emd
-    x = gens.sig_of(case['sig'])
+    xt = gens.sig_of(case['sig'])
+    x = xt.astype(float)
     N = x.size
     np.random.seed(case['seed'])
     try:
         with Trace() as tr:
-            out = emd.sift.complete_ensemble_sift(x.copy(), nensembles=case['nens'], ensemble_noise=case['noise'],
+            out = emd.sift.complete_ensemble_sift(xt.copy(), nensembles=case['nens'], ensemble_noise=case['noise'],
                                                   noise_mode=case['mode'], nprocesses=case['nproc'], max_imfs=case['cap'])
     except emd.support.EMDSiftCovergeError:
         raise Discard('convergence error')
@@ -138,7 +142,7 @@ def oracle_complete(case, rec):
     # group the per-member records into stages by the signal they were given
     stages = {}
     for r in recs:
-        stages.setdefault(digest(np.asarray(r['X'])), []).append(r)
+        stages.setdefault(digest(np.asarray(r['X'], dtype=float)), []).append(r)     # by value, whatever the storage dtype
     if len(stages) != imf.shape[1]:
         # identical residuals in two stages can only happen for degenerate signals
         raise Discard('stages cannot be told apart by their input (%d groups for %d IMFs)' % (len(stages), imf.shape[1]))
